@@ -28,7 +28,7 @@ RULE = ("schedule stream: macro schedules (one entry = one thread runs to its ne
         "GenConverter}, each in a fresh interpreter, every converter run on a 29-input battery, earlier converters re-run at the end; "
         "the 100th converter. stress: 16 threads x 20 fresh interpreters.")
 
-CFGS = ["fresh", "user", "dv_on", "dv_off", "gen"]
+CFGS = ["fresh", "user", "dv_on", "dv_off", "gen", "forbid", "poshook"]
 KMODEL = 4
 LABELS = {0: "start", 1: "finished", 2: "crashed", 3: "acquire", 4: "release", 5: "iter@1", 6: "iter@2", 7: "before-first-resolve",
           8: "before-last-resolve", 9: "other", 99: "hang"}
@@ -181,6 +181,58 @@ def history_groups(maxlen):
     return hs, groups
 
 
+def solo_refs(solo):
+    """reference digests from the runs in which one configuration is created alone in a fresh interpreter"""
+    refs = {"strict": {}, "common": None, "common_poshook": None}
+    for cfg, r in solo.items():
+        try:
+            c, st = r["histories"][0][0].split(":")
+        except Exception:
+            continue
+        refs["strict"][cfg] = st
+        if cfg == "poshook":
+            refs["common_poshook"] = c
+        elif refs["common"] is None:
+            refs["common"] = c
+    return refs
+
+
+def judge_history(group, r, refs):
+    """first converter of a history run whose results differ from its configuration's reference -> dict, else None"""
+    if "runner_error" in r:
+        return {"cfg": None, "observed": r["runner_error"][-600:], "expected": "converters are created and used without error"}
+    items = []
+    for h, row in zip(group, r["histories"]):
+        items += [("history %s, converter %d" % (h, i), cfg, d) for i, (cfg, d) in enumerate(zip(h, row))]
+    items += [("converter %d (%s) re-run after all later ones were created" % (i, cfg), cfg, d) for i, (cfg, d) in enumerate(r.get("later", []))]
+    if r.get("hundred"):
+        items.append(("the 100th converter", "fresh", r["hundred"]))
+    for where, cfg, d in items:
+        if d.startswith("create-raise"):
+            return {"cfg": cfg, "where": where, "observed": d, "expected": "the converter is created without error"}
+        c, st = d.split(":")
+        want_c = refs["common_poshook"] if cfg == "poshook" else refs["common"]
+        if c != want_c:
+            return {"cfg": cfg, "where": where, "observed": d, "expected": "values and ok/raise outcomes equal to the reference %s" % want_c}
+        if st != refs["strict"].get(cfg):
+            return {"cfg": cfg, "where": where, "observed": d,
+                    "expected": "the same results incl. exception kinds as configuration %s created alone in a fresh interpreter (%s)" % (cfg, refs["strict"].get(cfg))}
+    return None
+
+
+def explain_history(bad):
+    """which battery inputs behave differently: configuration created alone vs. created after the failing histories"""
+    solo = real("history", {"histories": [], "detail_cfg": bad["cfg"]})
+    after = real("history", {"histories": bad["histories"], "detail_cfg": bad["cfg"]})
+    if "runner_error" in solo or "runner_error" in after:
+        return None
+    out = []
+    for i, (a, b) in enumerate(zip(solo["detail"], after["detail"])):
+        if a != b:
+            out.append({"battery_index": i, "created_alone": str(a)[:300], "created_after_the_history": str(b)[:300]})
+    return out[:6]
+
+
 # ------------------------------------------------------------------------------------------------ the check
 def failing_theorem(path, text):
     m = re.search(r'line (\d+)', text)
@@ -280,33 +332,33 @@ def run(chk):
     reps = 20
     with cf.ThreadPoolExecutor(14) as ex:
         f_h = [ex.submit(real, "history", {"histories": g, "recheck": 12}) for g in hgroups]
-        f_long = ex.submit(real, "history", {"histories": [rng.choices(CFGS, k=3) for _ in range(12)], "hundred": True, "recheck": 60})
+        long_hist = [rng.choices(CFGS, k=3) for _ in range(12)]
+        f_long = ex.submit(real, "history", {"histories": long_hist, "hundred": True, "recheck": 60})
         f_s = [ex.submit(real, "sched", sp) for sp in specs]
         f_st = [ex.submit(real, "stress", {"threads": 16, "battery": True, "battery_threads": 4}) for _ in range(reps)]
         hres = [f.result() for f in f_h]
         long_run = f_long.result()
         sres = [f.result() for f in f_s]
         st = [f.result() for f in f_st]
-    ref = None
-    hist_bad = None
     for h in hs:
         chk.count(("hist", tuple(h)))
-    for g, r in list(zip(hgroups, hres)) + [([["<12 random histories in one interpreter + 100th converter>"]], long_run)]:
-        h = g
-        if "runner_error" in r:
-            hist_bad = hist_bad or {"histories": h, "observed_impl": r["runner_error"][-600:], "expected": "converters are created without error"}
-            continue
-        digs = [d for row in r["histories"] for d in row] + r["later"] + ([r["hundred"]] if r.get("hundred") else [])
-        if ref is None and digs and not digs[0].startswith("create-raise"):
-            ref = digs[0]
-        wrong = [d for d in digs if d != ref]
-        if wrong and not hist_bad:
-            hist_bad = {"histories": h, "observed_impl": {"per_converter": r["histories"], "earlier_converters_rechecked": r["later"], "hundredth": r.get("hundred")},
-                        "expected": "every converter gives the reference results " + str(ref)}
+    # references: every configuration created ALONE in a fresh interpreter (the first len(CFGS) groups are the histories [cfg])
+    refs = solo_refs(dict((g[0][0], r) for g, r in zip(hgroups[:len(CFGS)], hres[:len(CFGS)])))
+    ref = refs.get("common")
+    hist_bad = None
+    for g, r in list(zip(hgroups, hres)) + [(long_hist, long_run)]:
+        why = judge_history(g, r, refs)
+        if why and not hist_bad:
+            hist_bad = dict(why, histories=g)
+    if hist_bad and hist_bad.get("cfg") in CFGS:
+        hist_bad["inputs_that_differ"] = explain_history(hist_bad)
     n_conv = sum(r.get("n_convs", 0) for r in hres if "runner_error" not in r) + long_run.get("n_convs", 0)
     chk.obligation("history-stream:real-converters-agree", hist_bad is None,
-                   "%d histories in %d fresh interpreters + 1 long run, %d converters, battery %s inputs, reference digest %s"
-                   % (len(hs), len(hgroups), n_conv, long_run.get("n_battery"), ref))
+                   "%d histories over %s in %d fresh interpreters + 1 long run, %d converters; every converter compared with the same "
+                   "configuration created alone in a fresh interpreter: %s inputs incl. %s invalid ones with exception kinds; across "
+                   "configurations: values and ok/raise on %s inputs (reference %s)"
+                   % (len(hs), CFGS, len(hgroups), n_conv, (long_run.get("n_battery") or 0) + (long_run.get("n_strict") or 0), long_run.get("n_strict"),
+                      long_run.get("n_battery"), ref))
     chk.sample({"histories_in_one_interpreter": hgroups[-1], "digests": hres[-1].get("histories")})
 
     # ---- schedule stream on the real code
@@ -405,7 +457,8 @@ def run(chk):
 
     if hist_bad:
         chk.violation({"property": "C19", "kind": "history", "input": {"mode": "history", "spec": {"histories": hist_bad["histories"], "recheck": 12}},
-                       "expected": hist_bad["expected"], "observed_impl": hist_bad["observed_impl"], "reference": ref,
+                       "expected": hist_bad["expected"], "observed_impl": {k: v for k, v in hist_bad.items() if k not in ("expected", "histories")},
+                       "module_state_written_by_register_hooks": [w for w in (info or {}).get("writes", []) if w["kind"] == "WGlobal"],
                        "broken": [b[:2] for b in broken], "how_to_replay": how})
     if real_fail and not explained:
         n, ms, why, r = real_fail[0]
@@ -445,12 +498,10 @@ def replay(path, quiet=False):
             bad = [x for x in res.get("results", []) if x is None or x[0] != "ok"] if "runner_error" not in res else [res]
             why = str(bad[0]) if bad else None
         else:
-            if "runner_error" in res:
-                why = res["runner_error"][-400:]
-            else:
-                digs = [d for row in res["histories"] for d in row] + res["later"]
-                ref = ref or digs[0]
-                why = None if all(d == ref for d in digs) else "digests %s reference %s" % (digs, ref)
+            cfgs = sorted({c for h in spec["histories"] for c in h} | {"fresh"})
+            refs = solo_refs({c: real("history", {"histories": [[c]]}) for c in cfgs})
+            bad = judge_history(spec["histories"], res, refs)
+            why = None if bad is None else json.dumps(bad)[:800]
         if why:
             if not quiet:
                 print("still fails:", why)
